@@ -1,5 +1,6 @@
 import Operon.Lemmas.C04
 import Operon.Gen.MetabolismConsts
+import Operon.Gen.AtpTranslated
 /-!
 # C04 — energy ledger: no overdraft, exact charging, free failures, bounded total spend
 
@@ -272,6 +273,82 @@ theorem c04_no_raise_run (sys : Sys) (ops : List Op) : ∀ r ∈ (run cls noObs 
   intro r hr e he
   obtain ⟨m, j, n, st, -, h⟩ := c04_raises_only_what_observer_raised_run cls noObs k sys ops r hr e he
   simp [noObs, Obs.silent] at h
+
+/-! ### the model IS the source: agreement with the translation of the current Python code
+
+`Operon.Gen.AtpT.*` are produced on every run by `harness/vf/extract/py2lean_metabolism.py` from the Python AST
+of the lock-region bodies of `ATP_Store` (symbolic execution of the statement lists: assignments, `if/elif/else`,
+early returns, `min`/`int`, `_record_transaction`, `_update_state`).  Each theorem below states that the translated
+function equals the hand-written model function for all stores, arguments, classifiers and observers, so that
+every statement of this file (and of C05) is a statement about the code as it reads now.  A construct outside the
+translator's subset yields a definition that cannot agree (fail closed).  Not covered by the translation (tied by
+the differential correspondence only): the constructor, the float classifier inside `_update_state`, the
+composition of the two halves of `transfer_to` in `step`, threading. -/
+
+section Translation
+open Operon.Gen.AtpT
+set_option linter.unusedSimpArgs false   -- which simp lemmas fire depends on what the translator read
+
+/-- closes a leaf of an agreement proof: identical terms, contradictory path conditions, or field-wise equal stores -/
+macro "agree_leaf" : tactic =>
+  `(tactic| (first | rfl | (exfalso; omega) | (simp [*] <;> omega) | (exfalso; simp_all; done)
+                   | (congr 1; simp <;> omega) | (congr 3 <;> simp <;> omega)))
+
+/-- `consume`: what the caller sees (store afterwards, returned bool or the observer's exception). -/
+theorem c04_translation_agrees_consume (s : Store) (cost : Nat) (cur : Cur) (d : Bool) (p : Nat) :
+    consumeT cls obs s cost cur d p = ((consumeO cls obs s cost cur d p).1, (consumeO cls obs s cost cur d p).2.1) := by
+  rw [consumeO_proj]
+  unfold consumeT consumeCore debtPath
+  dsimp only
+  simp only [apply_ite (consumeFin cls obs)]
+  cases cur <;>
+    simp only [consumeFin, Branch.success, Store.bal, Store.setBal, charge, refuse, record,
+      reduceIte, Bool.false_eq_true, reduceCtorEq, true_and, false_and, and_true, and_false, gt_iff_lt, ge_iff_le]
+  all_goals (try (repeat' split))
+  all_goals (try agree_leaf)
+
+theorem c04_translation_agrees_regenerate (s : Store) (n : Nat) (cur : Cur) :
+    regenerateT cls obs s n cur = regenerateO cls obs s n cur := by
+  unfold regenerateT regenerateO regenCore
+  cases cur <;> simp only [Store.bal, Store.cap, Store.setBal, reduceCtorEq, and_true, and_false, gt_iff_lt, reduceIte]
+  all_goals (try (repeat' split))
+  all_goals (try agree_leaf)
+
+/-- first half of `transfer_to` (the `with self._lock:` block) -/
+theorem c04_translation_agrees_transfer_withdraw (s : Store) (n : Nat) (cur : Cur) :
+    transferWithdrawT s n cur = withdraw s n cur := by
+  unfold transferWithdrawT withdraw
+  cases cur <;> simp only [Store.bal, Store.setBal, reduceCtorEq, reduceIte]
+  all_goals (try (repeat' split))
+  all_goals (try agree_leaf)
+
+/-- second half of `transfer_to`: `other.regenerate(amount, energy_type)` on the peer, then `return True` -/
+theorem c04_translation_agrees_transfer_deposit (s : Store) (n : Nat) (cur : Cur) :
+    transferDepositT cls obs s n cur = depositO cls obs s n cur := by
+  unfold transferDepositT depositO
+  exact c04_translation_agrees_regenerate cls obs s n cur
+
+theorem c04_translation_agrees_convert (s : Store) (n : Nat) : convertT s n = convert s n := by
+  unfold convertT convert
+  simp only [gt_iff_lt]
+  all_goals (try (repeat' split))
+  all_goals (try agree_leaf)
+
+theorem c04_translation_agrees_enter_dormancy (s : Store) : enterDormancyT s = enterDormancy s := by
+  unfold enterDormancyT enterDormancy; rfl
+
+theorem c04_translation_agrees_exit_dormancy (s : Store) : exitDormancyT cls obs s = exitDormancyO cls obs s := by
+  unfold exitDormancyT exitDormancyO; rfl
+
+theorem c04_translation_agrees_apply_debt_interest (s : Store) : applyInterestT s = applyInterest s := by
+  unfold applyInterestT applyInterest interestAmount
+  simp only [gt_iff_lt]
+  all_goals (try (split <;> simp))
+
+theorem c04_translation_agrees_reset (s : Store) : resetT cls obs s = resetO cls obs s := by
+  unfold resetT resetO resetCore; rfl
+
+end Translation
 
 /-! ### the classifier's constants (extracted from the source on every run) -/
 
